@@ -58,7 +58,6 @@ Proof.
   - apply render_nonempty. exact Sa.
   - apply render_nonempty. exact Sb.
   - intro H. unfold absform in H. rewrite (components_render true eb Sb) in H. discriminate.
-  - intro H. discriminate.
 Qed.
 
 (* ---------- Path.Rel between absolute clean paths ---------- *)
@@ -196,6 +195,9 @@ Proof.
   destruct X as [|c s] eqn:E; [repeat split; auto|]. rewrite <- E in *.
   assert (Hne : X <> []) by (subst; discriminate).
   assert (Hro : root_only X = false) by (unfold root_only; rewrite Hr; reflexivity).
+  assert (Hpx : parts X <> [[]]) by (intro H; apply (parts_root_only X Hne) in H; congruence).
+  replace (match parts X with [[]] => [slash] | ps => join_slash ps end) with (join_slash (parts X))
+    by (destruct (parts X) as [|[|c1 x1] [|y1 t1]]; try reflexivity; contradiction).
   split; [rewrite join_parts_rooted by assumption; exact Hr|]. split.
   - apply nocolon_join. apply Forall_forall. intros x Hx.
     destruct (parts_chars X x Hx) as [->|[->|Hs]]; [apply nocolon_dot|intros []|].
@@ -216,8 +218,6 @@ Proof.
   { rewrite <- Hpp. symmetry. apply prefix_is_parts_prefix.
     - apply clean_nonempty.
     - apply clean_nonempty.
-    - intro Hc. rewrite C1 in Hc |- *. rewrite (components_render _ e1 S1) in Hc.
-      destruct (rooted from); [discriminate|]. simpl in Hc. subst e1. reflexivity.
     - intros _. apply nocolon_is_abs. apply nocolon_clean. exact Hct. }
   unfold path_prefixb in Hp. apply andb_true_iff in Hp as [Hr Hl]. apply eqb_prop in Hr.
   rewrite !clean_rooted in Hr.
